@@ -990,6 +990,7 @@ func simulate(ops []string) *caseResult {
 			res.fails = append(res.fails, failure{oracle: oracle, detail: detail, sig: sig, at: at})
 		}
 		returned := true
+		cpSuffix := ""
 		if f[0] == "copy" || f[0] == "copyb" {
 			returned = guarded(func() {
 				if p := hx.Safely(func() { ans = execCopy(ws, f) }); p != "" {
@@ -997,8 +998,24 @@ func simulate(ops []string) *caseResult {
 				}
 			})
 			if returned {
+				srcT, dstT := treeOf(f[1]), treeOf(f[3])
+				wantKinds := expectCopyCalls(orcs, f) // before expectCopy changes the oracle's state
 				want, out.copySize = expectCopy(orcs, f)
 				out.copyOK = want == "ok"
+				// what the recording stores saw: the source tree's events, the target tree's (one list if it is the same tree)
+				if ws[srcT].spy {
+					cpSuffix += " ;s" + joinEvents(ws[srcT].events)
+				}
+				if dstT != srcT && ws[dstT].spy {
+					cpSuffix += " ;d" + joinEvents(ws[dstT].events)
+				}
+				if wantKinds != nil && ws[dstT].spy {
+					if got := callKinds(ws[dstT].events); strings.Join(got, " ") != strings.Join(wantKinds, " ") {
+						fail("copy-batching", fmt.Sprintf("%q: the target saw [%s], expected [%s] (Batched, then per entry bSet and - at every "+
+							"multiple of the batch size - bCommit, its Flushes, Batched; finally bCommit, its Flushes, Flush)", op,
+							strings.Join(got, " "), strings.Join(wantKinds, " ")), map[string]string{"op": f[0], "oracle": "copy-batching"})
+					}
+				}
 				ws[0].events, ws[1].events = nil, nil
 			}
 		} else {
@@ -1026,7 +1043,7 @@ func simulate(ops []string) *caseResult {
 
 			break
 		}
-		out.ans, out.full = ans, ans
+		out.ans, out.full = ans, ans+cpSuffix
 		if out.traced {
 			// what reached the store below the wrappers and the debug callbacks, in order
 			out.full = strings.Join(append([]string{ans, ";"}, w.events...), " ")
